@@ -126,10 +126,23 @@ type mismatch struct {
 }
 
 type execResult struct {
-	key     string // canonical model state after the history ("" when not to be explored)
-	mism    *mismatch
-	outcome string // classification of the LAST call
-	outside bool
+	key       string // canonical model state after the history ("" when not to be explored)
+	mism      *mismatch
+	outcome   string // classification of the LAST call
+	outside   bool
+	primedRun bool // the history was also executed in the primed variant
+	primed    bool // the mismatch comes from the primed variant
+}
+
+// changesDirectory: calls that can add/remove directory entries.
+func changesDirectory(o *Op) bool {
+	switch o.K {
+	case "path_create_directory", "path_remove_directory", "path_unlink_file", "path_rename":
+		return true
+	case "path_open":
+		return openModes[o.Mode].creat
+	}
+	return false
 }
 
 func opSig(o *Op) string {
@@ -154,7 +167,12 @@ func histString(h []Op) string {
 }
 
 // execute replays a history on a fresh instance over a fresh host directory.
-func (w *worker) execute(hist []Op, verbose bool) (r execResult) {
+// primed: before the LAST call every (in-sync) directory descriptor is listed to its end in one
+// call (cookie 0, buffer holding the whole listing), so that the dirent cache is fully populated when the
+// last call changes a directory; the post-history probe then rewinds the same descriptors (cookie 0)
+// and must see exactly the new listing. (A listing is a no-op in the model, so the BFS never has one
+// inside a shortest history; priming supplies the readdir -> mutate -> readdir(0) interaction.)
+func (w *worker) execute(hist []Op, verbose, primed bool) (r execResult) {
 	w.seq++
 	dir := filepath.Join(w.dir, fmt.Sprintf("t%d", w.seq))
 	populate(dir)
@@ -172,6 +190,21 @@ func (w *worker) execute(hist []Op, verbose bool) (r execResult) {
 	}
 	for i := range hist {
 		o := &hist[i]
+		if primed && i == len(hist)-1 {
+			for fd := int32(3); fd <= 7; fd++ {
+				if e := m.fds[fd]; e != nil && e.ino.dir {
+					po := Op{K: "fd_readdir", Fd: fd, Len: 512}
+					exp := m.apply(&po)
+					res := x.do(&po)
+					say("  prime:  %-44s -> errno=%d bufused=%d | model: %s", po.String(), res.Errno, res.N, expString(exp))
+					if f, d := compare(exp, res, book); f != "" {
+						r.mism = &mismatch{Sig: "prime:fd_readdir:" + f, Step: i,
+							What: fmt.Sprintf("after [%s] the listing %s: %s", histString(hist[:i]), po.String(), d)}
+						return
+					}
+				}
+			}
+		}
 		exp := m.apply(o)
 		res := x.do(o)
 		say("  step %d: %-44s -> errno=%d n=%d trap=%q | model: %s", i, o.String(), res.Errno, res.N, res.Trap, expString(exp))
@@ -224,6 +257,9 @@ func (w *worker) execute(hist []Op, verbose bool) (r execResult) {
 			if f, d := compare(exp, res, book); f != "" {
 				say("  probe %s -> errno=%d n=%d | model: %s", o.String(), res.Errno, res.N, expString(exp))
 				sig := last + ":post:" + k + ":" + f
+				if primed && k == "fd_readdir" {
+					sig = last + ":post:rewound-fd_readdir-after-full-listing:" + f
+				}
 				if n := len(hist); n > 0 && hist[n-1].K == "fd_renumber" && hist[n-1].Fd == hist[n-1].Fd2 &&
 					o.Fd == hist[n-1].Fd && (k == "fd_tell" || k == "fd_filestat_get") && f == "errno" && res.Errno == eBADF {
 					// the descriptor that was renumbered onto itself (successfully) is now closed
@@ -270,9 +306,9 @@ func hashKey(s string) (k hkey) {
 }
 
 type bfsStats struct {
-	states, transitions, outside, pruned int64
-	perDepth                             []map[string]int64
-	exhaustive                           bool
+	states, transitions, outside, pruned, primed int64
+	perDepth                                     []map[string]int64
+	exhaustive                                   bool
 }
 
 func fsBFS(run *fw.Run, depth int, deadline time.Time, outcomes *fw.Counter, samples *fw.Sampler) bfsStats {
@@ -282,7 +318,7 @@ func fsBFS(run *fw.Run, depth int, deadline time.Time, outcomes *fw.Counter, sam
 	seen := map[hkey]bool{}
 	// the initial state is itself validated (probes + host tree)
 	w0 := newWorker(999)
-	r0 := w0.execute(nil, false)
+	r0 := w0.execute(nil, false, false)
 	w0.rt.rt.Close(ctx)
 	if r0.mism != nil {
 		// the empty history already disagrees: nothing to explore from
@@ -318,11 +354,23 @@ func fsBFS(run *fw.Run, depth int, deadline time.Time, outcomes *fw.Counter, sam
 					hist = append(hist, alpha[oi])
 				}
 				hist = append(hist, alpha[i%len(alpha)])
-				r := w.execute(hist, false)
+				r := w.execute(hist, false, false)
+				if r.mism == nil && !r.outside && changesDirectory(&hist[len(hist)-1]) {
+					// second execution with fully listed directory descriptors before the last call
+					r2 := w.execute(hist, false, true)
+					r.primedRun = true
+					if r2.mism != nil {
+						r2.primedRun, r2.primed, r2.outcome = true, true, r.outcome
+						r = r2
+					} else if r2.key != r.key {
+						cleanup()
+						fw.Fatalf("primed execution of [%s] ends in a different model state", histString(hist))
+					}
+				}
 				if r.mism != nil {
 					// a verdict must be reproducible: same history, fresh instance, two more times
 					for k := 0; k < 2; k++ {
-						if r2 := w.execute(hist, false); r2.mism == nil || r2.mism.Sig != r.mism.Sig {
+						if r2 := w.execute(hist, false, r.primed); r2.mism == nil || r2.mism.Sig != r.mism.Sig {
 							cleanup()
 							fw.Fatalf("non-reproducible mismatch for [%s]: %s", histString(hist), r.mism.What)
 						}
@@ -337,6 +385,9 @@ func fsBFS(run *fw.Run, depth int, deadline time.Time, outcomes *fw.Counter, sam
 				oi := uint16(i % len(alpha))
 				st.transitions++
 				lvl["transitions"]++
+				if r.primedRun {
+					st.primed++
+				}
 				outcomes.Inc(r.outcome)
 				hist := func() []Op {
 					var o []Op
@@ -348,7 +399,7 @@ func fsBFS(run *fw.Run, depth int, deadline time.Time, outcomes *fw.Counter, sam
 				switch {
 				case r.mism != nil:
 					st.pruned++
-					run.Violation(r.mism.Sig, r.mism.What, map[string]any{"kind": "fs", "history": hist()})
+					run.Violation(r.mism.Sig, r.mism.What, map[string]any{"kind": "fs", "history": hist(), "primed": r.primed})
 				case r.outside:
 					st.outside++
 				default:
@@ -405,10 +456,10 @@ func main() {
 		depths = append(depths, l)
 	}
 	run.Finish(fw.Coverage{
-		Evaluations:     st.transitions + rd.sequences,
-		DistinctNontriv: st.states - 1 + rd.sequences,
+		Evaluations:     st.transitions + st.primed + rd.sequences + rd.mutated,
+		DistinctNontriv: st.states - 1 + rd.sequences + rd.mutated,
 		States:          st.states, Transitions: st.transitions, TracesValidated: st.transitions,
-		Rule:    "fs: distinct canonical reference-model states (tree+contents, descriptor table with inode identity, offsets, append/write flags) other than the initial one, each reached by executing its shortest history on the real WASI implementation; readdir: distinct (directory, buf_len, cookie sequence) call sequences, each executed on a fresh directory descriptor",
+		Rule:    "fs: distinct canonical reference-model states (tree+contents, descriptor table with inode identity, offsets, append/write flags) other than the initial one, each reached by executing its shortest history on the real WASI implementation; readdir: distinct (directory, buf_len, cookie sequence) call sequences, each executed on a fresh directory descriptor; readdir-mutation: distinct (directory, buf_len, traversal prefix, mutation) cases",
 		Samples: samples.List(), Exhaustive: st.exhaustive && rd.exhaustive, Outcomes: outcomes.Map(),
 		Bounds: map[string]any{
 			"fs_alphabet": len(alphabet()), "fs_depth": depth, "fs_per_depth": depths,
@@ -416,6 +467,7 @@ func main() {
 			"readdir": rd.bounds, "fs_host_filesystem": fastFS, "readdir_host_filesystem": tmpFS,
 		},
 		Extra: map[string]any{
+			"fs_transitions_also_executed_primed": st.primed, "readdir_mutation_cases": rd.mutated,
 			"fs_transitions_outside_model": st.outside, "fs_transitions_with_mismatch": st.pruned,
 			"readdir_calls": rd.calls, "readdir_sequences": rd.sequences, "readdir_traversals": rd.traversals,
 			"readdir_stale_cookie_results": rd.stale,
@@ -441,6 +493,7 @@ func replay(file string) int {
 		Replay    struct {
 			Kind    string       `json:"kind"`
 			History []Op         `json:"history"`
+			Primed  bool         `json:"primed"`
 			Readdir *readdirCase `json:"readdir"`
 		} `json:"replay"`
 	}
@@ -451,7 +504,7 @@ func replay(file string) int {
 	switch doc.Replay.Kind {
 	case "fs":
 		w := newWorker(0)
-		r := w.execute(doc.Replay.History, true)
+		r := w.execute(doc.Replay.History, true, doc.Replay.Primed)
 		if r.mism != nil {
 			fmt.Printf("MISMATCH signature=%s: %s\n", r.mism.Sig, r.mism.What)
 			return 1
